@@ -3,6 +3,7 @@
 From Coq Require Import NArith ZArith List Bool.
 From V9 Require Shape.ShapeLib Shape.PVersion.
 From V9 Require Import Lib.GoSem Lib.Bytes Gen.Consts Codec.Msg Srv.Seq Srv.SeqSpec Srv.SeqProofs Recv.Recv Recv.RecvProofs.
+From V9 Require Import Clnt.IO Clnt.Version Clnt.VersionProofs.
 Import ListNotations.
 Local Open Scope N_scope.
 
@@ -55,6 +56,38 @@ Example C12_nonvacuous :
   snd (fst (seq_step cfg (conn_init cfg) (Tversion_ 100 ver_p) (mkScript (AErr [] 0) None))) = Rversion_ 100 ver_p.
 Proof. vm_compute. split; reflexivity. Qed.
 
+
+(* ---- the client's direction (clnt_clnt.go Connect, clnt_open.go, clnt_read.go, clnt_write.go) ---- *)
+(* the client adopts min(its own, the server's) msize ... *)
+Theorem C12_client_adopts_min : forall cm wantu rm rv, fst (clnt_connect cm wantu rm rv) = N.min cm rm.
+Proof. exact clnt_connect_min. Qed.
+Print Assumptions C12_client_adopts_min.
+
+(* ... and 9P2000.u only if it asked for it and the server answered with it *)
+Theorem C12_client_dialect : forall cm wantu rm rv,
+  snd (clnt_connect cm wantu rm rv) = true <-> (wantu = true /\ bytes_eqb rv ver_u = true).
+Proof. exact clnt_connect_dialect. Qed.
+Print Assumptions C12_client_dialect.
+
+(* both directions composed: whatever the state of the server's connection, after the exchange client and server
+   hold the same msize and the same dialect *)
+Theorem C12_both_sides_agree : forall cfg c cm wantu sc c' m v ev,
+  CInv cfg c -> c_IOHDRSZ <= cm ->
+  seq_step cfg c (clnt_version_request cm wantu) sc = (c', Rversion_ m v, ev) ->
+  clnt_connect cm wantu m v = (c_msize c', c_dotu c').
+Proof. exact both_sides_agree. Qed.
+Print Assumptions C12_both_sides_agree.
+
+(* with the iounit Clnt.Open derives from the negotiated msize, no Twrite frame the client sends and no Rread it
+   asks for exceeds that msize, for EVERY reported iounit and buffer length *)
+Theorem C12_client_frames_fit : forall msize riounit n,
+  c_IOHDRSZ <= msize ->
+  let iou := open_iounit msize riounit in
+  iou <= msize - c_IOHDRSZ /\
+  twrite_frame_len iou n <= msize /\
+  rread_frame_len (tread_count iou n) <= msize.
+Proof. exact client_frames_fit. Qed.
+Print Assumptions C12_client_frames_fit.
 
 (* ---- structural parameters read off the CURRENT source (Gen/Shape.v): version compares the requested msize
    with the CONNECTION's (it can only shrink) and takes the dialect from the SERVER's capability ---- *)
